@@ -257,6 +257,12 @@ func (bqp *binaryQuantizedPoint) Id() uint64 {
 }
 
 func (bqp *binaryQuantizedPoint) IdFromKey(key []byte) (uint64, bool) {
+	// Once the threshold is known a point is stored under its quantised 'q'
+	// key only (see WriteTo), so both suffixes identify a point. Without this
+	// a cold scan of the bucket misses every quantised point.
+	if id, ok := conversion.NodeIdFromKey(key, 'q'); ok {
+		return id, true
+	}
 	return conversion.NodeIdFromKey(key, 'v')
 }
 
